@@ -285,13 +285,13 @@ Section WithDigest.
   Definition xfer_new (ex : list oid) (items : list item) : list item :=
     filter (fun i => negb (mem_oid (it_oid i) ex)) items.
 
-  Definition xfer (w : world) (v : bool) (items : list item) : list oid * list oid * world :=
+  Definition xfer (w : world) (v : option bool) (items : list item) : list oid * list oid * world :=
     let r := oids_exist w (map it_oid items) in
     let new := xfer_new (fst r) items in
     match new with
     | [] => ([], [], snd r)
     | _ :: _ =>
-        let a := add (snd r) (Some v) new in
+        let a := add (snd r) v new in   (* verify=None reaches add as None: the store default *)
         (filter (fun o => negb (mem_oid o (snd (fst a)))) (map it_oid new), snd (fst a), snd a)
     end.
 
@@ -309,7 +309,7 @@ Section WithDigest.
   | OSaveRow (o : oid) (alg : name) (v : oid)          (* state.save(path of o, HashInfo(alg, v)) *)
   | ODropState                                         (* the state database is wiped *)
   | OCheckSeq (os : list oid)                          (* hashfile.check(odb, tree): entries, then the tree *)
-  | OXfer (v : bool) (items : list item)               (* transfer(src, odb, ids, verify=v, hardlink=..) *)
+  | OXfer (v : option bool) (items : list item)               (* transfer(src, odb, ids, verify=v, hardlink=..) *)
   | OCheckNoHash (o : oid).                            (* odb.check(oid, check_hash=False) *)
 
   Inductive out :=
